@@ -125,7 +125,9 @@ PROPS = {
         "assumptions": LAYER_ASSUME + ["the directory stream of the underlying os.File returns every entry once, in a fixed order (taken from a plain Readdirnames(-1) of the same directory)"],
     },
     "C10": {
-        "theorems": ["serialisable", "critical_sections_are_atomic", "lock_discipline", "lock_discipline_nonvacuous"],
+        "theorems": ["serialisable", "critical_sections_are_atomic", "lock_discipline", "lock_discipline_nonvacuous",
+                     "concurrent_ops_serialise", "concurrent_rollback_restores_linkfree_partial"],
+        "extra_modules": ["C10S"],
         "streams": [{"name": "conc", "quick": ["-n", "25"], "thorough": ["-n", "300"]}],
         "assumptions": ["sync.Mutex provides mutual exclusion",
                         "Generated/LockFacts.lean is regenerated from /repo's Go AST on every run (go/ast extractor in harness/astfacts.go)",
